@@ -11,6 +11,7 @@ import (
 	"os"
 	"path/filepath"
 	"sync"
+	"sync/atomic"
 	"testing"
 	"time"
 
@@ -54,6 +55,11 @@ func propConcurrentParts(t *vt.T) {
 	nRecv := t.IntRange("concurrentReceptions", 2, 3)
 	nQuery := t.IntRange("concurrentQueries", 0, 3)
 	queriesFirst := t.Bool("queriesStartFirst")
+	ownPrepare := t.Bool("eachConnectionPrepares")
+	if ownPrepare {
+		t.Class("first-contact-from-several-connections")
+		t.NonTrivial()
+	}
 	if nQuery > 0 {
 		t.NonTrivial()
 		t.Class("queries-concurrent-with-receptions")
@@ -67,12 +73,22 @@ func propConcurrentParts(t *vt.T) {
 		for k := 0; k < 4; k++ {
 			parts = append(parts, &binned{name, 40, int64(10 * k), int64(10*k + 10), "00000000000000000000000000000000", tm})
 		}
-		st.Prepare([]sts.Binned{parts[0]})
+		if !ownPrepare {
+			st.Prepare([]sts.Binned{parts[0]})
+		}
 		var wg sync.WaitGroup
+		var acked atomic.Int32
 		recv := func(p *binned) {
 			defer wg.Done()
+			if ownPrepare {
+				// as the data route does it: every request prepares for its own parts, so that the
+				// file's very first contact comes from several connections at once
+				st.Prepare([]sts.Binned{p})
+			}
 			f := &sts.Partial{Name: name, Size: 40, Time: marshal.NanoTime{Time: tm}, Hash: p.hash, Source: "src", Parts: []*sts.ByteRange{{Beg: p.beg, End: p.end}}}
-			st.Receive(f, bytes.NewReader(data[p.beg:p.end]))
+			if st.Receive(f, bytes.NewReader(data[p.beg:p.end])) == nil {
+				acked.Add(1)
+			}
 		}
 		query := func() { defer wg.Done(); st.Received([]sts.Binned{parts[3]}) }
 		wg.Add(nRecv + nQuery)
@@ -95,10 +111,10 @@ func propConcurrentParts(t *vt.T) {
 		wg.Wait()
 		b, err := os.ReadFile(filepath.Join(root, "stage", name+".cmp"))
 		c := &sts.Partial{}
-		if err != nil || json.Unmarshal(b, c) != nil || len(c.Parts) != nRecv {
+		if n := int(acked.Load()); n > 0 && (err != nil || json.Unmarshal(b, c) != nil || len(c.Parts) < n) {
 			lost++
 			if first == "" {
-				first = fmt.Sprintf("%s: %d receptions acknowledged, record: %s (read error %v)", name, nRecv, string(b), err)
+				first = fmt.Sprintf("%s: %d receptions acknowledged, record: %s (read error %v)", name, n, string(b), err)
 			}
 		}
 	}
